@@ -13,9 +13,18 @@ Failed(e) == e.exc # ""
 Zipped(t, rs, cs) == LET ri == RowIdx(rs, t.sh[1])  cols == SColsOf(t.sp, ColSpace(t.sp, cs)) IN
                      IF Len(ri) = Len(cols) THEN <<[m \in DOMAIN cols |-> t.c[ri[m] + 1][cols[m]]]>> ELSE <<>>
 \* the clause an event violates ("ok" if none)
+ArithExact(a, b, op) == CASE op = "div" -> \A r \in DOMAIN a.c : \A j \in DOMAIN a.c[r] : b.c[r][j] > 0 /\ a.c[r][j] >= 0 /\ a.c[r][j] % b.c[r][j] = 0
+                          [] op = "pow" -> \A r \in DOMAIN a.c : \A j \in DOMAIN a.c[r] : b.c[r][j] \in 0..2 /\ a.c[r][j] < 30000 /\ a.c[r][j] > -30000
+                          [] OTHER -> TRUE
+\* cells of magnitude 2^24 and more are not exact once a history has converted a table to single precision: such events are not judged
+Big1(rows) == \E r \in DOMAIN rows : \E j \in DOMAIN rows[r] : rows[r][j] >= 16777216 \/ rows[r][j] <= -16777216
+\* (tables without rows or without columns have nothing to judge: their cell part may arrive as an empty string)
+BigTab(x) == IF x.sp = <<>> \/ Len(x.sh) > 2 \/ \E i \in DOMAIN x.sh : x.sh[i] = 0 THEN FALSE
+             ELSE IF Len(x.sh) = 1 THEN Big1(x.c) ELSE \E a \in DOMAIN x.c : Big1(x.c[a])
 Clause(e) ==
   LET t == Tab(e.ins[1]) IN
-  IF e.a # "set" /\ e.ins_after # e.ins THEN "operand-changed"
+  IF \E i \in DOMAIN e.ins : BigTab(e.ins[i]) THEN "ok"
+  ELSE IF e.a # "set" /\ e.ins_after # e.ins THEN "operand-changed"
   \* frame: no other table of the heap changes (results never alias other objects), and the two views of an object agree
   ELSE IF Has(e, "others") /\ e.others_after # e.others THEN "unrelated-table-changed"
   ELSE IF Has(e, "ins_after_co") /\ e.ins_after_co # e.ins_after THEN "coordinates-view-differs-from-tensor"
@@ -41,9 +50,14 @@ Clause(e) ==
     [] e.a = "cat" -> IF ~CatValid(t, Tab(e.ins[2])) THEN "ok" ELSE IF Failed(e) THEN "cat-failed" ELSE IF ~TabEq(Tab(e.out), Cat(t, Tab(e.ins[2]))) THEN "cat" ELSE "ok"
     [] e.a = "repeat" -> IF Len(t.sh) # 1 THEN "ok" ELSE IF Failed(e) THEN "repeat-failed" ELSE IF ~TabEq(Tab(e.out), Repeat(t, e.n)) THEN "repeat" ELSE "ok"
     [] e.a = "unsq" -> IF Len(t.sh) # 1 THEN "ok" ELSE IF Failed(e) THEN "unsqueeze-failed" ELSE IF ~TabEq(Tab(e.out), Unsq(t, IF e.n = 0 THEN 0 ELSE 1)) THEN "unsqueeze" ELSE "ok"
-    [] e.a = "arith" -> IF ~ArithValid(t, Tab(e.ins[2])) THEN "ok" ELSE IF Failed(e) THEN "arith-failed" ELSE IF ~TabEq(Tab(e.out), Arith(t, Tab(e.ins[2]), e.opname)) THEN "arith" ELSE "ok"
+    \* (quotients are judged where every observed cell divides, powers for exponent cells 0..2 and small bases: exact in float64)
+    [] e.a = "arith" -> IF ~ArithValid(t, Tab(e.ins[2])) \/ ~ArithExact(t, Tab(e.ins[2]), e.opname) THEN "ok" ELSE IF Failed(e) THEN "arith-failed" ELSE IF ~TabEq(Tab(e.out), Arith(t, Tab(e.ins[2]), e.opname)) THEN "arith" ELSE "ok"
     [] e.a = "to" -> IF Failed(e) THEN "to-failed"
                      ELSE IF \E i \in DOMAIN e.dt : e.dt[i] # (IF e.n = 32 THEN "torch.float32" ELSE "torch.float64") THEN "dtype-after-to" ELSE "ok"
+    \* list(points) iterates through the first batch axis: one table per row, row r = t[r]
+    [] e.a = "iter" -> IF Len(t.sh) # 1 THEN "ok" ELSE IF Failed(e) THEN "iteration-failed"
+                       ELSE IF Len(e.rows_out) # t.sh[1] \/ \E r \in DOMAIN e.rows_out :
+                                 ~TabEq(Tab(e.rows_out[r]), Get(t, <<[k |-> "int", i |-> r - 1, ix |-> <<>>, a |-> 0, b |-> 0, s |-> 1, m |-> <<>>]>>, [k |-> "none"])) THEN "iteration" ELSE "ok"
     [] e.a = "eq" -> IF Failed(e) THEN "eq-failed" ELSE IF e.eq # TEq(t, Tab(e.ins[2])) THEN "equality" ELSE "ok"
     [] e.a = "space" ->
          LET u == Tab(e.ins[2]) IN
